@@ -344,7 +344,7 @@ func c04ValidateBeforeAlloc(r *Run) {
 }
 
 func c04ReadPolicy(r *Run) {
-	const rule = "C04-R4-idle-vs-T8"
+	rule := r.aliased("C04-R4-idle-vs-T8")
 	w := r.W
 	rn := w.Fn("hsmsss", "readN")
 	rf := w.Fn("hsmsss", "transport.readFrame")
